@@ -4,6 +4,7 @@ use crate::driver::PropSpec;
 pub mod c01;
 pub mod c02;
 pub mod c02_e2;
+pub mod c03;
 pub mod c04;
 pub mod c12;
 pub mod c13;
@@ -13,5 +14,5 @@ pub mod c19;
 pub mod common;
 
 pub fn all() -> Vec<PropSpec> {
-    vec![c01::spec(), c02::spec(), c04::spec(), c12::spec(), c13::spec(), c14::spec(), c15::spec(), c19::spec()]
+    vec![c01::spec(), c02::spec(), c03::spec(), c04::spec(), c12::spec(), c13::spec(), c14::spec(), c15::spec(), c19::spec()]
 }
